@@ -23,7 +23,18 @@ REQUIRED = ['getNBest_perm', 'getNBest_rename', 'mem_getNBest_iff', 'symmetric_c
             'copeland_rule_perm', 'minimax_rule_perm', 'schulze_rule_perm', 'condorcet_winner_rule_perm', 'smith_rule_perm',
             'schwartz_rule_perm', 'ranked_to_condorcet_rename',
             'spav_perm', 'pav_perm', 'score_convert_perm', 'score_voting_perm', 'spav_rename', 'pav_rename', 'score_voting_rename',
-            'score_voting_rename_same']
+            'score_voting_rename_same',
+            'kemeny_young_perm', 'ranked_pairs_perm', 'kemeny_young_rule_perm', 'ranked_pairs_rule_perm',
+            'copeland_rename', 'minimax_rename', 'schulze_rename', 'condorcet_winner_rename', 'smith_set_rename',
+            'schwartz_set_rename', 'kemeny_young_rename', 'ranked_pairs_rename',
+            'copeland_rule_rename', 'minimax_rule_rename', 'schulze_rule_rename', 'condorcet_winner_rule_rename',
+            'smith_rule_rename', 'schwartz_rule_rename', 'kemeny_young_rule_rename',
+            'stv_perm', 'stv_perm_eq', 'stv_order_of_equal_winners_witness', 'stv_distributor_perm',
+            'majority_judgment_perm', 'majority_judgment_rename_mono_partial',
+            'copeland_rename_both', 'stv_rename', 'stv_distributor_rename', 'slotsEquiv_symm', 'slotsEquiv_trans', 'slotsEquiv_elected',
+            'copeland_symmetric_candidates', 'minimax_symmetric_candidates', 'schulze_symmetric_candidates',
+            'condorcet_sets_symmetric_candidates', 'stv_symmetric_candidates', 'score_voting_symmetric_candidates',
+            'pav_symmetric_candidates', 'spav_symmetric_candidates']
 _LR = ['hare', 'hagenbach_bischoff', 'imperiali', 'droop', 'hare_rounded', 'hagenbach_bischoff_ceil', 'hagenbach_bischoff_rounded']
 
 
@@ -82,10 +93,17 @@ for _fam, _q, _form in [('stv_gregory_hare', 'hare', 'selector'), ('stv_gregory_
                         ('stv_dist_gregory_droop', 'droop', 'distributor')]:
     MODEL[_fam] = (_simple('stv_eval', method='gregory', quota=_q, accept_equal=True, mandatory=False, step=-1, form=_form,
                            prev=[], max=[]), 'dist' if _form == 'distributor' else 'sel')
-PROVED_FAMILIES = list(MODEL)
-# modelled (composition of the owners' models, correspondence checked here) but not yet proved order independent
 for _nm in ['kemeny_young', 'rankedpairs_winvotes', 'rankedpairs_margins', 'rankedpairs_pwo']:
     MODEL[f'condorcet_{_nm}'] = (_ranked('c10_condorcet', name=_nm), 'sel')
+
+
+def _mj(tb):
+    return lambda prof, n: dict(op='mj', votes=[[[[c, str(sc)] for c, sc in b], int(w)] for b, w in prof], n=n, tie_breaking=tb)
+
+
+MODEL['majority_judgment'] = (_mj('default'), 'sel')
+MODEL['majority_judgment_plus'] = (_mj('plus'), 'sel')
+PROVED_FAMILIES = list(MODEL)
 K_PERM = 3
 K_REN = 3
 HASH_SEEDS = ['0', '1', '2', '3', 'random']
@@ -104,15 +122,32 @@ try:
     UNPROVED = ['perm_rename_invariant_' + n for n in fams() if n not in PROVED_FAMILIES]
 except Exception:
     pass
+# statements of the proved families that are NOT covered by a theorem
+UNPROVED += [
+    'quota_distributor_perm_subtract (QuotaDistributor / LargestRemainder with on_overaward="subtract")',
+    'ranked_pairs_perm_distinct_majorities_only (proved under Perm.RPDistinct: the (score, count) sort keys separate ALL pairs, '
+    'losing pairs included; the property only asks the majorities to have pairwise distinct strengths)',
+    'majority_judgment_rename (proved for order-preserving renamings only: majority_judgment_rename_mono_partial)',
+    'rename_equivariant_thresholds_quota_selector_under_noninjective: n/a (proved for every renaming)',
+    'hash_seed_independence (not expressible in a Lean model; sampled)',
+]
+UNPROVED = [u for u in UNPROVED if not u.startswith('rename_equivariant_thresholds')]
 REQUIRED_COUNTERS = ['perm', 'rename', 'reverse_sort_rename', 'hashseed', 'modelled', 'symmetric_pair', 'all_perms', 'symmetric_profile']
 RULE = ('every deterministic evaluator family x generated profiles (2-5 candidates) x 3 permutations of insertion order x 3 bijective '
-        'renamings (one reversing string sort order, one to multi-character random names) in-process, and a sample of the cases in '
-        'subprocesses under PYTHONHASHSEED in {0,1,2,3,random}; ranked pairs only on profiles whose majorities have pairwise distinct '
-        'strengths. Outcomes are compared as multisets of winners / seat maps with ties as sets. Non-trivial = base outcome not an error.')
+        'renamings (one reversing string sort order, one to multi-character random names, one permuting the base names) in-process, and a '
+        'sample of the cases in subprocesses under PYTHONHASHSEED in {0,1,2,3,random}; small profiles (<= 3 entries quick, <= 4 thorough) under '
+        'ALL orders of presentation; mirrored profiles (symmetric in candidates 0 and 1) of every vote type for the symmetric-candidates '
+        'clause; ranked pairs only on profiles whose majorities have pairwise distinct strengths. Outcomes are compared as multisets of '
+        'winners / seat maps with ties as sets. For every family with a Lean model the model is evaluated on a permuted (2/3 of the cases) or '
+        'renamed (1/3) presentation and compared with the implementation on that presentation. Non-trivial = base outcome not an error.')
 NOT_VERIFIED = ['hash-seed independence is a property of CPython set/dict iteration: sampled over 5 seeds, not proved (partial)',
                 'the relative ORDER of winners is not compared (the property allows equally placed winners to swap; scores are not available '
                 'generically) - the multiset of winners, the seat map and the ties are',
-                'families listed under unproved are decided by the oracle on the implementation only']
+                'families listed under unproved are decided by the oracle on the implementation only',
+                'ranked pairs: the theorem needs Perm.RPDistinct (all pairs separated by (score, count)); generated profiles that only have '
+                'pairwise distinct majority strengths are decided by the oracle',
+                'renaming theorems rename frozensets (approval ballots, shared ranks) canonically (models keep them sorted by id); the '
+                'implementation side covers the real string names, incl. order-reversing and multi-character ones']
 
 
 def _names_variants(rng, m):
@@ -393,10 +428,20 @@ def shrink_candidates(case):
             yield c
 
 
-TECHNIQUE = 'Lean 4 proofs of permutation invariance and renaming equivariance (get_n_best via its characterisation, highest averages by simulation) + implementation oracle over all deterministic families, permutations, renamings and hash seeds'
-LEVEL_TEXT = ('Permutation invariance and renaming equivariance are proved in Lean for all inputs for plurality/get_n_best (incl. the symmetric-candidates '
-              'corollary) and for every highest-averages method; for the remaining deterministic families the statement is checked on the implementation '
-              'over generated profiles x permutations x renamings (order-reversing and multi-character names); hash-seed independence is sampled in '
+TECHNIQUE = ('Lean 4 proofs of permutation invariance and renaming equivariance of the executable models (get_n_best via its characterisation; '
+             'highest averages and STV by simulation relations; converters by commutativity of the per-ballot sums proved in C13; Condorcet '
+             'evaluators as functions of the pairwise map; PAV/SPAV/score via their defining computations) + implementation oracle over all '
+             'deterministic families, permutations, renamings and hash seeds')
+LEVEL_TEXT = ('Ballot-order independence and renaming equivariance (up to the order of equally placed winners and of tie members, made explicit by '
+              'SlotsEquiv / ExceptEquiv / DistEquiv) are proved in Lean for all inputs for: plurality/get_n_best, the thresholds, QuotaSelector, all '
+              'highest-averages methods, QuotaDistributor and LargestRemainder (policies error/ignore), the converters to simple / positional / '
+              'pairwise votes and the positional rules and approval voting built on them, Condorcet winner, Smith and Schwartz sets, Copeland '
+              '(both orders), minimax (3 scorers), Schulze, Kemeny-Young, ranked pairs (order: under separated sort keys), STV with Gregory '
+              'transfers (selector and distributor), PAV, SPAV, score voting, majority judgment (renaming: order-preserving only); with the '
+              'symmetric-candidates corollary for most of them. The models are those of the owning properties, evaluated here on permuted and '
+              'renamed presentations against the implementation. The remaining deterministic families (Benham, Tideman alternative, Baldwin, '
+              'Bucklin/Oklahoma, STAR, allocated score) are decided by the oracle on the implementation only; hash-seed independence is sampled in '
               'subprocesses under 5 PYTHONHASHSEED values (partial: not expressible in a Lean model).')
-LEVEL_NOTE = ('Trusted: Lean kernel + standard axioms; C09/C01 models tied to code by correspondence. Partial: hash seeds sampled only; families without Lean model '
-              'decided by oracle only; order of winners not compared (multiset).')
+LEVEL_NOTE = ('Trusted: Lean kernel + standard axioms; the models of C01/C02/C03/C05/C06/C09/C12/C13/C16 tied to the code by their owners\' correspondence '
+              'and re-checked here on permuted / renamed inputs (outcomes compared as multisets). Partial: hash seeds sampled only; families without '
+              'Lean theorem decided by oracle only; order of winners not compared (multiset).')
